@@ -49,12 +49,30 @@ def okI (m : IMat) (rows : List PyId) (cols : Option (List PyId) := none) : Json
 def okQ (m : QMat) (rows : List PyId) : Json :=
   Json.mkObj [("out", Json.str "ok"), ("mat", qmatJson m), ("rows", idsToJson rows)]
 
+/-- [[node, edge, int], …] -/
+def wtable? (j : Json) : Option (List (PyId × PyId × Int)) :=
+  match j with
+  | .arr a => a.toList.mapM (fun t => match t with
+      | .arr #[n, e, .num v] => do
+        if v.exponent ≠ 0 then none else pure ((← idOfJson? n), (← idOfJson? e), v.mantissa)
+      | _ => none)
+  | _ => none
+
 def handleNet (h : Net) (f : String) (j : Json) : Json :=
   match f with
   | "incidence_matrix" =>
     match orderOpt? j with
     | none => badOp | some none => unmodelled
-    | some (some o) => let I := incidence h o; okI I.mat I.rows (some I.cols)
+    | some (some o) =>
+      match getField? j "wt" with
+      | none => let I := incidence h o; okI I.mat I.rows (some I.cols)
+      | some wt =>
+        -- a `weight` callback given as a table [[node, edge, value], …] with a default for every other pair
+        match wtable? wt, getInt? j "wdef" with
+        | some tb, some dflt =>
+          let I := incidenceW h o (fun n e => ((tb.find? (fun t => t.1 == n && t.2.1 == e)).map (·.2.2)).getD dflt)
+          okI I.mat I.rows (some I.cols)
+        | _, _ => badOp
   | "adjacency_matrix" =>
     match orderOpt? j, getInt? j "s", getBool? j "weighted" with
     | some none, some _, some _ => unmodelled
